@@ -168,8 +168,13 @@ def rule_plumbing(ck: Check, repo: Repo) -> None:
     same = {"template": "template", "template_is_commented": "template_is_commented", "force_multi": "force_multi",
             "merge_copyrights": "merge_copyrights"}
     for callee in ("find_and_replace_header", "add_new_header"):
+        ah = repo.func(f"{AN}.add_header_to_file")
+        # the local that holds the chosen style: first assigned from NAME_STYLE_MAP.get(...)
+        style_local = next((ast.unparse(st.target if isinstance(st, ast.AnnAssign) else st.targets[0]) for st in ast.walk(ah)
+                            if isinstance(st, (ast.Assign, ast.AnnAssign)) and st.value is not None
+                            and ast.unparse(st.value).startswith("NAME_STYLE_MAP.get(")), "comment_style")
         check_forward(r, repo, f"{AN}.add_header_to_file", callee, f"{HD}.{callee}",
-                      {**same, "text": "text", "reuse_info": "reuse_info", "style": "comment_style"}, skip_self=False)
+                      {**same, "text": "text", "reuse_info": "reuse_info", "style": style_local}, skip_self=False)
     check_forward(r, repo, f"{HD}.find_and_replace_header", "create_header", f"{HD}.create_header",
                   {**same, "reuse_info": "reuse_info", "header": "header", "style": "style"}, skip_self=False)
     check_forward(r, repo, f"{HD}.add_new_header", "create_header", f"{HD}.create_header",
@@ -179,7 +184,8 @@ def rule_plumbing(ck: Check, repo: Repo) -> None:
                    "force_multi": "force_multi"}, skip_self=False)
     fn = repo.func(f"{HD}._create_new_header")
     cc = find_calls(fn, lambda c, f: f == "style.create_comment")
-    ok = len(cc) == 1 and ast.unparse(cc[0].args[0]) == "rendered" and ast.unparse(kwarg(cc[0], "force_multi") or ast.Constant(None)) == "force_multi"
+    ok = len(cc) == 1 and expr_text(fn, cc[0].args[0]).startswith("template.render(") and \
+        ast.unparse(kwarg(cc[0], "force_multi") or ast.Constant(None)) == "force_multi"
     r.instance("create_comment-call", {"ok": ok})
     if not ok:
         r.violation(f"{HD}._create_new_header", "create_comment operands", "style.create_comment(rendered, force_multi=force_multi)",
